@@ -1,4 +1,5 @@
 import AslModel.Lemmas.TagsCtx
+import AslModel.Lemmas.TagsCtxCost
 /-! C11 - macro, repetition and inclusion constructs are transparent: property theorems, context of an expansion
 (Model/TagsCtx.lean: the current file name kept in the INCLUDE tags and the most recent label kept by `Produce_Code`,
 against Spec/MacroCtx.lean: the hand expansion in which every INCLUDE/BINCLUDE statement names the file the manual's rule
@@ -10,6 +11,9 @@ line of its own in front of the first expanded statement).
   all of this) for which the hand expansion exists, the tag machine run with enough fuel ends without error, with an
   empty tag chain and the file name it started with, and what it handed to `Produce_Code`, line by line replaced by what the
   hand expansion has in its place (`hand`), IS the hand expansion.
+* `C11_ctx_refines_cost`: the same for EVERY fuel of at least `ctxCost fs d main prog` rounds - the number of rounds is computed
+  from the program (`expandCost`, Lemmas/TagsCtxCost.lean: one round per statement, one per delivery of a body that ends, one
+  per file that ends); `C11_ctx_refines` is its corollary.
 * `C11_ctx_include_restores`: an INCLUDE statement issued under ANY input tag (the body of a macro or of a loop, or a
   file): after the included file has been read the file name and the tag chain are those before the statement.
 * `C11_ctx_curr_inv` / `C11_ctx_search_dir`: in every state the machine reaches the current file name is the name of the
@@ -25,21 +29,34 @@ line of its own in front of the first expanded statement).
 namespace AslModel.Ctx
 open AslModel.CtxSpec
 
+/-- The tag machine carries out the hand expansion: same lines, file names looked up from the file a statement is written in -
+    for every fuel of at least `ctxCost fs d main prog` rounds (computed from the program and the file system). -/
+theorem C11_ctx_refines_cost (fs : FS) (d : Nat) (main : Path) (prog : Body) (o : List Flat)
+    (h : expand fs d main prog = some o) (fuel : Nat) (hf : ctxCost fs d main prog ≤ fuel) :
+    (runFile fs fuel main prog).err = false ∧ (runFile fs fuel main prog).stack = [] ∧
+    (runFile fs fuel main prog).curr = [] ∧ (runFile fs fuel main prog).evs.flatMap hand = o := by
+  obtain ⟨evs', hs, ho⟩ := incOKN_expand fs d main prog o h (.file main [] prog) .nil [] []
+  simp only [Tag.setCur, bapp_nil, List.nil_append] at hs
+  have hpop : step fs ⟨main, [.file main [] .nil], evs', false⟩ = some ⟨[], [], evs', false⟩ := rfl
+  have hend : step fs ⟨[], [], evs', false⟩ = none := rfl
+  have : runFile fs fuel main prog = ⟨[], [], evs', false⟩ := run_of_stepsN (hs.trans (StepsN.one hpop)) hend fuel hf
+  rw [this]
+  exact ⟨rfl, rfl, rfl, ho⟩
+
 /-- The tag machine carries out the hand expansion: same lines, file names looked up from the file a statement is written in. -/
 theorem C11_ctx_refines (fs : FS) (d : Nat) (main : Path) (prog : Body) (o : List Flat)
     (h : expand fs d main prog = some o) :
     ∃ k, ∀ fuel, k ≤ fuel →
       (runFile fs fuel main prog).err = false ∧ (runFile fs fuel main prog).stack = [] ∧
-      (runFile fs fuel main prog).curr = [] ∧ (runFile fs fuel main prog).evs.flatMap hand = o := by
-  obtain ⟨evs', hs, ho⟩ := incOK_expand fs d main prog o h (.file main [] prog) .nil [] []
-  simp only [Tag.setCur, bapp_nil, List.nil_append] at hs
-  have hpop : step fs ⟨main, [.file main [] .nil], evs', false⟩ = some ⟨[], [], evs', false⟩ := rfl
-  have hend : step fs ⟨[], [], evs', false⟩ = none := rfl
-  obtain ⟨k, hk⟩ := run_of_steps (hs.trans (Steps.one hpop)) hend
-  refine ⟨k, fun fuel hf => ?_⟩
-  have : runFile fs fuel main prog = ⟨[], [], evs', false⟩ := hk fuel hf
-  rw [this]
-  exact ⟨rfl, rfl, rfl, ho⟩
+      (runFile fs fuel main prog).curr = [] ∧ (runFile fs fuel main prog).evs.flatMap hand = o :=
+  ⟨ctxCost fs d main prog, fun fuel hf => C11_ctx_refines_cost fs d main prog o h fuel hf⟩
+
+/-- the program below needs 10 rounds: the IRPC line, twice (INCLUDE, the line of a.inc, end of a.inc, end of the body), end of
+    m.asm - with 9 the machine has not ended -/
+example : ctxCost ⟨[(["r", "s", "a.inc"], .text (.cons (.stmt 2 none (.code false [7])) .nil))], [], ["r"]⟩ 2 ["r", "m.asm"]
+    (.cons (.loop .irpc none 2 (.cons (.incl none ⟨false, ["s", "a.inc"]⟩) .nil)) .nil) = 10 ∧
+    (runFile ⟨[(["r", "s", "a.inc"], .text (.cons (.stmt 2 none (.code false [7])) .nil))], [], ["r"]⟩ 9 ["r", "m.asm"]
+      (.cons (.loop .irpc none 2 (.cons (.incl none ⟨false, ["s", "a.inc"]⟩) .nil)) .nil)).stack ≠ [] := by decide
 
 example : expand ⟨[(["r", "s", "a.inc"], .text (.cons (.stmt 2 none (.code false [7])) .nil))], [], ["r"]⟩ 2 ["r", "m.asm"]
     (.cons (.loop .irpc none 2 (.cons (.incl none ⟨false, ["s", "a.inc"]⟩) .nil)) .nil) =
